@@ -65,6 +65,15 @@ def extras(etl):
         B('cat(header)', lambda a, b: etl.cat(a, b, header=['v', 'k', 'z'])),
         B('cat(missing)', lambda a, b: etl.cat(a, b, missing=0)),
         B('annex(missing)', lambda a, b: etl.annex(a, b, missing=0)),
+        # other numbers of operands than two: one table squared up by cat/stack, three and four tables side by side
+        U('cat(one table)', lambda a: etl.cat(a)),
+        U('cat(one table, missing)', lambda a: etl.cat(a, missing='NA')),
+        U('stack(one table)', lambda a: etl.stack(a)),
+        B('annex(three tables)', lambda a, b: etl.annex(a, b, [['z'], [1], [2]])),
+        B('annex(four tables)', lambda a, b: etl.annex(a, [['y'], [0]], b, [['z'], [1], [2]])),
+        B('cat(three tables)', lambda a, b: etl.cat(a, [['k', 'z'], [9, 9]], b)),
+        B('stack(three tables)', lambda a, b: etl.stack(a, [['k', 'z'], [9, 9]], b)),
+        B('mergesort(three tables)', lambda a, b: etl.mergesort(a, [['k', 'z'], [9, 9]], b, key='k')),
         U('sort(reverse)', lambda a: etl.sort(a, 'k', reverse=True)),
         U('sort(buffersize=2)', lambda a: etl.sort(a, 'k', buffersize=2)),
         U('sort(cache=False)', lambda a: etl.sort(a, 'k', cache=False)),
@@ -238,7 +247,13 @@ def run(ctx):
                    % (info['functions'], info['with_writes'], info['nodes'], info['selftests']), True)
     except Exception as e:   # noqa
         ctx.bridge('translator: ownership IR extracted', False, repr(e))
-    ctx.prove(['PetlProofs.Props.C03'], REQUIRED)
+    from translators import fingerprints as _fp
+    try:
+        _fpi = _fp.generate()
+        ctx.bridge('translator: fingerprints of the petl sources this check vouches for (%d entries over all properties)' % _fpi['names'], True)
+    except Exception as e:   # noqa
+        ctx.bridge('translator: source fingerprints extracted', False, repr(e))
+    ctx.prove(['PetlProofs.Props.C03', 'PetlProofs.Snapshot.C03'], REQUIRED + ['Petl.Snapshot.C03_sources_as_validated'])
     rng = ctx.rng
     cat = [(n, a, r) for (n, a, r, l) in c20.catalogue(etl) if r is not None and n not in ('progress',)]
     cat += [(n, a, r) for (n, a, r, l) in extras(etl)]
